@@ -1,6 +1,7 @@
 import PyamgV.Proofs.ExtC16Relax
 import PyamgV.Proofs.ExtC02XBlock
 import PyamgV.Proofs.ExtC02XBlockCycle
+import PyamgV.Proofs.ExtC09XToBsr
 
 /-! PyamgV (C16, extension E51): **energy clauses for `block_jacobi` / `block_gauss_seidel` on block storage**
 (`bs ≥ 2`) as relaxation-type coarse solvers.
@@ -305,5 +306,71 @@ theorem relax_block_jacobi_energy_csr (conj : R → R) (o : Opts R) (ri : Rec R)
   refine ⟨x, h1, h2, ?_⟩
   rw [en_transfer A.n _ hn (rowOf A) _ hop hs hp hsym hpsd, en_transfer A.n _ hn (rowOf A) _ hop hs hp hsym hpsd] at h3
   exact h3
+
+/-! ### `A.tobsr()`: the recorded block storage is the matrix of the call -/
+
+/-- **the operator of `A.tobsr(blocksize=(bs, bs))` (SciPy `csr_tobsr`, model `K.Csr.toBsr`) is the operator of `A`** -/
+theorem bsrOp_toBsr (A : Csr R) (bs : Nat) (B : Bsr R) (h : A.toBsr bs = some B) :
+    B.nb * B.bs = A.n ∧ bsrOp B = csrOp A.n (rowOf A) := by
+  obtain ⟨hbs, hBbs, hn, hsem⟩ := ExtC09X.toBsr_sem A bs B h
+  refine ⟨by rw [hBbs]; exact hn, ?_⟩
+  apply LinearMap.ext
+  intro u
+  funext p
+  show (if p < B.nb * B.bs then rowDotB B (p / B.bs) u (p % B.bs) else 0) = csrOp A.n (rowOf A) u p
+  rw [hBbs, hn]
+  by_cases hp : p < A.n
+  · rw [if_pos hp, csrOp_apply _ _ _ _ hp]
+    have hI : p / bs < B.nb := by
+      rw [Nat.div_lt_iff_lt_mul hbs, hn]; exact hp
+    have hl : p % bs < bs := Nat.mod_lt _ hbs
+    have h1 := hsem (p / bs) hI (p % bs) hl (fun c m => u (c * bs + m))
+    have hpe : p / bs * bs + p % bs = p := Nat.div_add_mod' p bs
+    rw [hpe] at h1
+    have h2 : rowDotB B (p / bs) u (p % bs) =
+        ExtC09X.blkSum bs B.bj B.bx (B.jjs (p / bs)) (p % bs) (fun c m => u (c * bs + m)) := by
+      unfold rowDotB blkDot ExtC09X.blkSum blkAt
+      rw [hBbs]
+    rw [h2, h1]
+    unfold ExtC09X.csrW rowDot rowOf
+    rw [List.map_map]
+    apply congrArg
+    apply List.map_congr_left
+    intro jj _
+    show rd A.ax jj * u (rdN A.aj jj / bs * bs + rdN A.aj jj % bs) = rd A.ax jj * u (rdN A.aj jj)
+    rw [Nat.div_add_mod']
+  · rw [if_neg hp]; simp [csrOp, hp]
+
+/-- **energy clause, block_gauss_seidel on block storage**, when the recorded block storage is `A.tobsr()` of the CSR
+matrix of the call (checked exactly per instance, op `c16y_tobsr`): in the energy norm of `A` -/
+theorem relax_block_gauss_seidel_energy_tobsr (conj : R → R) (o : Opts R) (ri : Rec R) (A : Csr R) (b : Array R)
+    (hb : b.size = A.n) (ho : o.omega = none) (hr : o.withrho = none) (hbs : ri.bs ≠ 1) (hbs0 : ri.bs ≠ 0)
+    (hd : ri.dinv.size = ri.bsr.n * (ri.bs * ri.bs)) (htb : A.toBsr ri.bs = some (toB ri.bsr ri.bs))
+    (hsym : ∀ u v, (euc R A.n).a (csrOp A.n (rowOf A) u) v = (euc R A.n).a u (csrOp A.n (rowOf A) v))
+    (hpsd : ∀ v, 0 ≤ (euc R A.n).a (csrOp A.n (rowOf A) v) v)
+    (hR : ∀ i, i < ri.bsr.n → RightInv (toB ri.bsr ri.bs) ri.dinv i)
+    (xs : Nat → R) (hxs : csrOp A.n (rowOf A) xs = fn b) :
+    ∃ x, relaxSolveR conj "block_gauss_seidel" o ri A b = .ok x ∧ x.size = b.size ∧
+      (energy A.n (rowOf A) hsym hpsd).en (xs - fn x) ≤ (energy A.n (rowOf A) hsym hpsd).en xs := by
+  obtain ⟨hn, hop⟩ := bsrOp_toBsr A ri.bs _ htb
+  exact relax_block_gauss_seidel_energy_csr conj o ri A b hb ho hr hbs hbs0 hd hn.symm hop hsym hpsd hR xs hxs
+
+/-- **energy clause, block_jacobi on block storage**, recorded block storage = `A.tobsr()`: in the energy norm of `A` -/
+theorem relax_block_jacobi_energy_tobsr (conj : R → R) (o : Opts R) (ri : Rec R) (A : Csr R) (b : Array R)
+    (hb : b.size = A.n) (hsw : o.sweep = none) (hbs : ri.bs ≠ 1) (hbs0 : ri.bs ≠ 0)
+    (hd : ri.dinv.size = ri.bsr.n * (ri.bs * ri.bs)) (htb : A.toBsr ri.bs = some (toB ri.bsr ri.bs))
+    (ω : R) (hω : effOmega o ri.rho id = some ω) (h0 : 0 ≤ ω)
+    (hsym : ∀ u v, (euc R A.n).a (csrOp A.n (rowOf A) u) v = (euc R A.n).a u (csrOp A.n (rowOf A) v))
+    (hpsd : ∀ v, 0 ≤ (euc R A.n).a (csrOp A.n (rowOf A) v) v)
+    (hcols : ∀ i, i < ri.bsr.n → ∀ jj ∈ ri.bsr.jjs i, rdN ri.bsr.aj jj < ri.bsr.n)
+    (hL : ∀ i, i < ri.bsr.n → LeftInv (toB ri.bsr ri.bs) ri.dinv i)
+    (hD : ∀ r, ω * (euc R A.n).a
+        (csrOp A.n (rowOf A) (bDinv ri.bsr.n ri.bs ri.dinv r)) (bDinv ri.bsr.n ri.bs ri.dinv r) ≤
+      2 * (euc R A.n).a (bDinv ri.bsr.n ri.bs ri.dinv r) r)
+    (xs : Nat → R) (hxs : csrOp A.n (rowOf A) xs = fn b) :
+    ∃ x, relaxSolveR conj "block_jacobi" o ri A b = .ok x ∧ x.size = b.size ∧
+      (energy A.n (rowOf A) hsym hpsd).en (xs - fn x) ≤ (energy A.n (rowOf A) hsym hpsd).en xs := by
+  obtain ⟨hn, hop⟩ := bsrOp_toBsr A ri.bs _ htb
+  exact relax_block_jacobi_energy_csr conj o ri A b hb hsw hbs hbs0 hd hn.symm hop ω hω h0 hsym hpsd hcols hL hD xs hxs
 
 end PyamgV.C16Y
